@@ -511,6 +511,23 @@ func runDesc(r *core.Result, c dcase, fm form, copyStr bool) {
 	if q.Read != len(out) {
 		r.Add("ReadAnyWithDesc|"+c.trigger+"|cursor", "%s: bytes %s: cursor %d want %d", in, hx(out), q.Read, len(out))
 	}
+	// the strict reader (disallowUnknown): the message holds declared fields only, so it reads back just the same
+	q2 := &binary.BinaryProtocol{Buf: out}
+	got2, err := q2.ReadAnyWithDesc(root, false, copyStr, true, fm.byName)
+	if err != nil {
+		r.Add("ReadAnyWithDesc|"+c.trigger+",disallowUnknown|error", "%s: bytes %s (no unknown field in it): %v", in, hx(out), err)
+	} else if m := cmpGo(got2, c.v, fm.byName, true, ""); m != nil {
+		r.Add("ReadAnyWithDesc|"+c.trigger+",disallowUnknown|differs-from-the-lenient-read", "%s: bytes %s at %s: read back %#v", in, hx(out), m.path, got2)
+	}
+	// and the strict writer
+	p3 := &binary.BinaryProtocol{}
+	if !c.seq {
+		if err := p3.WriteAnyWithDesc(root, goMsg(c.v, fm), false, fm.cast, true, fm.byName); err != nil {
+			r.Add("WriteAnyWithDesc|"+c.trigger+",disallowUnknown|error", "%s [%s]: %v", in, fm, err)
+		} else if back3, err := c.s.Decode(p3.Buf, c.s.Root); err != nil || !pbref.Equal(back3, want) {
+			r.Add("WriteAnyWithDesc|"+c.trigger+",disallowUnknown|differs-from-the-lenient-write", "%s [%s]: wrote %s (lenient writer: %s), reference: %v", in, fm, hx(p3.Buf), hx(out), err)
+		}
+	}
 }
 
 // formTag adds the form bits that select a writer branch to the signature of writer-side findings.
